@@ -17,9 +17,13 @@ import (
 	"strconv"
 	"strings"
 	"syscall"
+	"time"
 )
 
-func init() { vRegister("c12_adversary", c12Adversary) }
+func init() {
+	vRegister("c12_adversary", c12Adversary)
+	vRegister("c12_streams", c12Streams)
+}
 
 func c12Bases(seed int64, thorough bool) []*e2eCase {
 	var res []*e2eCase
@@ -318,4 +322,122 @@ func c12ArchiveHeader(dec []byte) (int, int, map[string]any) {
 		off += e + 1
 	}
 	return 0, 0, nil
+}
+
+// ---------------------------------------------------------------- streams
+// c12_streams: "no sequence of bytes received from the other side can crash the local process", for the
+// line readers themselves: streams assembled from the pieces the protocol, tmux and the Windows console
+// put on a line (and anything else a byte can be), in random chunkings, read by the real
+// recvLine / recvCheck / recvInteger / recvString / recvBinary / recvData in both framings.  The oracle
+// is the absence of a panic and a return before the (short) read time-out plus slack; what is
+// returned is C03's and C16's subject, not this driver's.
+func c12Streams(d *vCtx) error {
+	n := d.pInt("streams", 20000)
+	shards := d.pInt("shards", 16)
+	return vShards(d, shards, func(si, ns int) error {
+		pieces := []string{"#", ":", "!", "\n", "\r", "\r\n", "\x1b", "\x1b[", "\x1b[H", "\x1b[25;1H", "\x1b[2;119H", "\x1b[0m", "\x1b[K", "\x1b[!p",
+			"\x1b[?25l", ";", "H", "m", "1", "25", "0", "-1", "9223372036854775807", " ", "\b", "\t", "\x03", "\x1bP=", "\x1b\\", "1s", "=",
+			"#SUCC:", "#DATA:", "#NUM:", "#SIZE:", "#NAME:", "#MD5:", "#CFG:", "#ACT:", "#EXIT:", "#fail:", "#FAIL:", "SUCC", "DATA",
+			"A", "AA", "//", "8", "eJw", "eJwDAAAAAAE=", "QUJD", "\xee", "\xee\xee", "\x00", "\xff", "~", "x", "10240/10240", "{", "}", "\"", ",",
+			"\x1b7\x07::TRZSZ:TRANSFER:R:1.1.0:1234567890120:0\r\n", "\x1b[60;238H", "\x1b[29;120H", "\x08\x08"}
+		type hit struct {
+			Mode   string `json:"mode"`
+			Call   string `json:"call"`
+			Stream string `json:"stream"`
+			Chunks []int  `json:"chunks"`
+			Panic  string `json:"panic"`
+			Slow   bool   `json:"slow"`
+		}
+		var hits []hit
+		for i := si; i < n; i += ns {
+			rng := d.rng(int64(700000 + i))
+			var b []byte
+			for k := 1 + rng.Intn(24); k > 0; k-- {
+				if rng.Intn(12) == 0 {
+					b = append(b, byte(rng.Intn(256)))
+				} else {
+					b = append(b, pieces[rng.Intn(len(pieces))]...)
+				}
+			}
+			mode := []string{"win", "tmux", "plain"}[i%3]
+			if rng.Intn(3) > 0 { // most streams end like a line of their framing
+				if mode == "win" {
+					b = append(b, "!\n"...)
+				} else {
+					b = append(b, '\n')
+				}
+			}
+			var chunks [][]byte
+			var sizes []int
+			for rest := b; len(rest) > 0; {
+				k := 1 + rng.Intn(len(rest))
+				if rng.Intn(2) == 0 && k > 3 {
+					k = 1 + rng.Intn(3)
+				}
+				chunks = append(chunks, append([]byte(nil), rest[:k]...))
+				sizes = append(sizes, k)
+				rest = rest[k:]
+			}
+			call := []string{"line", "linejunk", "check", "int", "str", "bin"}[rng.Intn(6)]
+			if rng.Intn(40) == 0 {
+				call = "data" // recvData waits for its own time-out (1 s at least)
+			}
+			t := newTransfer(nil, nil, false, nil)
+			switch mode {
+			case "win":
+				t.windowsProtocol = true
+				t.transferConfig.Newline = "!\n"
+			case "tmux":
+				t.transferConfig.TmuxOutputJunk = true
+			}
+			if call == "data" || rng.Intn(4) == 0 {
+				t.transferConfig.Binary = mode != "win" && rng.Intn(2) == 0
+			}
+			for _, c := range chunks {
+				t.addReceivedData(c, false)
+			}
+			h := hit{Mode: mode, Call: call, Stream: strconv.QuoteToASCII(string(b)), Chunks: sizes}
+			t0 := time.Now()
+			func() {
+				defer func() {
+					if r := recover(); r != nil {
+						h.Panic = fmt.Sprint(r)
+					}
+				}()
+				for rd := 0; rd < 3; rd++ { // up to three reads: a stream may hold several lines
+					to := time.After(4 * time.Millisecond)
+					var err error
+					switch call {
+					case "line":
+						_, err = t.recvLine("SUCC", false, to)
+					case "linejunk":
+						_, err = t.recvLine("SUCC", true, to)
+					case "check":
+						_, err = t.recvCheck("DATA", rng.Intn(2) == 0, to)
+					case "int":
+						_, err = t.recvInteger("SUCC", rng.Intn(2) == 0, to)
+					case "str":
+						_, err = t.recvString("NAME", rng.Intn(2) == 0, to)
+					case "bin":
+						_, err = t.recvBinary("MD5", false, to)
+					case "data":
+						t.transferConfig.Timeout = 1
+						_, err = t.recvData()
+					}
+					if err != nil {
+						break
+					}
+				}
+			}()
+			if el := time.Since(t0); el > 6*time.Second {
+				h.Slow = true
+			}
+			if h.Panic != "" || h.Slow {
+				hits = append(hits, h)
+			}
+			d.add("streams", 1)
+		}
+		d.add("panics", len(hits))
+		return vWriteJSON(d.path("hits.json"), hits)
+	})
 }
